@@ -222,6 +222,7 @@ type Result struct {
 	start           time.Time
 	mu              sync.Mutex
 	distinct        map[string]struct{}
+	unlisted        int
 }
 
 func NewResult(prop, tier string, seed uint64) *Result {
@@ -254,13 +255,19 @@ func (r *Result) Sample(v any) {
 
 func (r *Result) Fail(f OracleFailure) {
 	r.mu.Lock()
+	defer r.mu.Unlock()
 	if f.Known != "" {
+		// failures explained by a listed finding: counted, a few kept as samples
 		r.KnownHits[f.Known]++
+		if r.KnownHits[f.Known] <= 3 {
+			r.OracleFailures = append(r.OracleFailures, f)
+		}
+		return
 	}
-	if len(r.OracleFailures) < 50 {
+	r.unlisted++
+	if r.unlisted <= 50 {
 		r.OracleFailures = append(r.OracleFailures, f)
 	}
-	r.mu.Unlock()
 }
 
 func (r *Result) Write(path string) error {
